@@ -6,10 +6,8 @@ import (
 	"math/rand"
 	"os"
 	"path/filepath"
-	"runtime"
 	"sort"
 	"testing"
-	"time"
 
 	sp "github.com/anyproto/any-sync/net/streampool"
 
@@ -37,27 +35,7 @@ type recorder struct {
 	acts    map[string]int
 }
 
-// quiesce waits until no goroutine of the pool can run: all of them wait at a harness gate or inside
-// the pool for something only the harness can cause (see poolQuiet).
-func (r *recorder) quiesce() *finding {
-	deadline := time.Now().Add(6 * watchdog)
-	n := 0
-	for {
-		if poolQuiet() {
-			n++
-			if n >= 2 {
-				return nil
-			}
-		} else {
-			n = 0
-		}
-		if time.Now().After(deadline) {
-			return broken("the pool does not become quiescent")
-		}
-		runtime.Gosched()
-		time.Sleep(50 * time.Microsecond)
-	}
-}
+func (r *recorder) quiesce() *finding { return r.c.quiesce() }
 
 func (r *recorder) emit(ev map[string]any) {
 	vs := r.c.snapshot()
